@@ -552,7 +552,7 @@ def report_functional(ctx, fails):
 
 def search(ctx, big):
     rng = ctx.rng
-    mult = (3 if ctx.tier == "quick" else 5) if big else 1
+    mult = (2 if ctx.tier == "quick" else 5) if big else 1
     obj_classes = [c for c in REAL_CLASSES]
     # object forms: every class appears as the first source of some configurations, all four fields
     n_obj = ctx.n(8, 120) * mult
